@@ -17,6 +17,14 @@ CHECKS = {
              text="Bounded-exhaustive over small configurations (queue size, auto-digest threshold, retention) and all call sequences to depth 7 (quick) / 10 (thorough) incl. raising digesters and sensitive items: TLC evaluates hang-freedom, boundedness, per-item accounting (each item handled at most once, counts add up), toxic-callback and recycling clauses on every recorded edge.",
              note="Trusted: TLC/SANY; digester invocations are observed by wrapping the instance's digester table (logging only), the queue content is inferred FIFO and tied to the public sizes by the count clauses; clock and locks substituted by module namespace. max_queue_size >= 2 as in the statement.",
              ref="DESIGN.md section 4 C13"),
+ "C14": dict(technique="TLA+ specs (Execute.tla step machine with fault plans; Coordination.tla) model-checked with TLC; every fault plan run on the real CoordinationSystem and judged by TLC (Trace_Execute.tla); controller-level exploration tree judged on the exit-path clauses (Trace_Coordination.tla)",
+             text="Fault enumeration decided by TLC: the whole bounded plan space of execute_operation (request lists incl. repeats, pre-owners, preemption, failing/raising checkpoint per phase, work ok/raise/manual-kill/shutdown/nested preemptor, validate none/true/false/raise) is executed on the real system and every outcome record is judged against the C14 clauses and against the step machine; complete/abort/watchdog exits are judged on the exhaustive controller-level tree.",
+             note="Trusted: TLC/SANY, stub work/validate/checkpoint functions, public dataclass fields (ResourceLock.owner/hold_count, active_operations). Quick tier samples the 3-resource plan space (seeded); thorough enumerates it.",
+             ref="DESIGN.md section 4 C14"),
+ "C15": dict(technique="TLA+ spec (Coordination.tla) model-checked with TLC; real controller+watchdog explored by BFS, check_deadlock() after every call judged by TLC against the history-defined wait-for relation (Trace_Coordination.tla); TLC -simulate behaviours replayed",
+             text="Bounded-exhaustive: all sequences to depth 8 (quick) / 10 (thorough) of start/acquire/release/complete/abort/watchdog over 2-3 operations x 2-3 resources with and without preemption on the real controller; TLC derives the ground-truth blocked-on relation from call results only and evaluates Exact / CycleIsReal / VictimRule on every edge; the specification (repaired graph maintenance) is model-checked to coincide with the ground truth.",
+             note="Trusted: TLC/SANY, public dataclass fields of the controller, the ground-truth definition stated in DESIGN.md section 4 C15. Two priority levels, hold count capped at 2.",
+             ref="DESIGN.md section 4 C15"),
 }
 NOT_APPLICABLE = []
 
